@@ -81,6 +81,30 @@ def plan(tier, seed):
               dtype=pick(rng, DTYPES), view=bool(rng.random() < 0.2),
               mag=pick(rng, [1, 1, 1, 1, 1e-10, 1e8]),
               linop=bool(oshape is None and norm == "ortho" and rng.random() < 0.35))
+    # realistic sizes: images of 256 x 256 and larger, volumes, odd / prime extents (still the
+    # per-axis DFT-matrix definition), and long 1-D records past 2**16 samples (definition
+    # evaluated at sampled output indices, plus Parseval and the round trip)
+    rngb = P.rng("big")
+    bigs = [[256, 256], [300, 220], [257, 129], [512, 64], [64, 64, 48], [8, 320, 320], [1021, 3]]
+    for i in range(6 if tier == "quick" else 40):
+        shape = bigs[int(rngb.integers(len(bigs)))]
+        ndim = len(shape)
+        axes, akind = _axes_variants(rngb, ndim)
+        center = bool(rngb.random() < 0.7)
+        oshape, okind = None, "same"
+        if center and rngb.random() < 0.4:
+            oshape = [max(1, s_ + int(rngb.integers(-9, 10))) for s_ in shape]
+            okind = "".join("g" if o > s_ else "s" if o < s_ else "e"
+                            for o, s_ in zip(oshape, shape))
+        P.add("fft_matrix", inverse=bool(rngb.random() < 0.5), shape=shape, axes=axes,
+              akind=akind, center=center, norm=pick(rngb, ["ortho", "ortho", None]),
+              oshape=oshape, okind=okind, dtype=pick(rngb, ["complex128", "complex64", "float32"]),
+              view=bool(rngb.random() < 0.2), mag=1, linop=False, timeout=900)
+    for i in range(4 if tier == "quick" else 24):
+        n = int(pick(rngb, [65537, 1 << 17, 100003, 70000, (1 << 16) + 2]))
+        P.add("fft_long", inverse=bool(rngb.random() < 0.5), n=n, batch=int(pick(rngb, [0, 0, 3])),
+              center=bool(rngb.random() < 0.7), norm=pick(rngb, ["ortho", "ortho", None]),
+              dtype=pick(rngb, ["complex128", "complex64"]), timeout=900)
     # directed: delta at every index of an odd axis, strict subset of axes
     nd = 0
     for n in ([3, 5, 7] if tier == "quick" else [3, 5, 7, 9, 11]):
@@ -144,10 +168,64 @@ def run_history(case):
     return held(sig, {"settings": len(case["seq"])}, n, True)
 
 
+def run_long(case):
+    import sigpy as sp
+    rng = rng_for(case)
+    n, inverse, center, norm = case["n"], case["inverse"], case["center"], case["norm"]
+    dtype = np.dtype(case["dtype"])
+    shape = ([case["batch"]] if case["batch"] else []) + [n]
+    x = crandn(rng, shape, dtype)
+    x0 = x.copy()
+    f, g = (sp.ifft, sp.fft) if inverse else (sp.fft, sp.ifft)
+    sig = "long|%s|%d|b%d|%s|%s|%s" % ("i" if inverse else "f", n, case["batch"], center, norm,
+                                       dtype.name)
+    wit = dict(case)
+    y = f(x, axes=[-1], center=center, norm=norm)
+    tol = 1e-9 if dtype == np.complex128 else 3e-4
+    checks = 0
+    if tuple(y.shape) != tuple(shape) or y.dtype != dtype:
+        return violated(sig, "output shape / dtype %s %s, expected %s %s" % (
+            y.shape, y.dtype, shape, dtype), wit, mech="shape")
+    if not np.array_equal(x, x0):
+        return violated(sig, "input array was modified", wit, mech="mutated")
+    c = n // 2 if center else 0
+    m = np.unique(np.concatenate([[0, 1, n // 2 - 1, n // 2, n // 2 + 1, n - 2, n - 1],
+                                  rng.integers(0, n, 120)]))
+    k = np.arange(n) - c
+    sgn = 1.0 if inverse else -1.0
+    xd = x0.astype(np.complex128).reshape(-1, n)
+    ref = np.stack([xd @ np.exp(sgn * 2j * np.pi * ((mm - c) * k % n) / n) for mm in m], axis=-1)
+    ref = ref / (np.sqrt(n) if norm == "ortho" else (n if inverse else 1.0))
+    got = y.reshape(-1, n)[:, m]
+    sc = nrm(xd) / np.sqrt(n) * (np.sqrt(n) if norm == "ortho" else (1.0 if inverse else n)) \
+        / (1.0 if norm == "ortho" else np.sqrt(n)) + 1e-300
+    e = float(np.max(np.abs(got - ref))) / max(float(np.max(np.abs(ref))), 1e-300)
+    checks += 1
+    obs = {"sampled_err": e, "samples": int(m.size)}
+    if not e <= tol:
+        return violated(sig, "differs from the DFT definition at sampled output indices: "
+                        "relative error %.3g (n = %d)" % (e, n), wit, mech="value", obs=obs)
+    if norm == "ortho":
+        e3 = abs(nrm(y) - nrm(x0)) / max(nrm(x0), 1e-300)
+        back = g(y, axes=[-1], center=center, norm=norm)
+        e2 = relerr(back, x0.astype(np.complex128))
+        obs.update(parseval=e3, roundtrip=e2)
+        checks += 2
+        if not e3 <= tol * 10:
+            return violated(sig, "norm not preserved: %.3g (n = %d)" % (e3, n), wit,
+                            mech="parseval", obs=obs)
+        if not e2 <= tol * 10:
+            return violated(sig, "round trip error %.3g (n = %d)" % (e2, n), wit,
+                            mech="roundtrip", obs=obs)
+    return held(sig, obs, checks, True)
+
+
 def run_case(case):
     import sigpy as sp
     if case["gen"] == "fft_history":
         return run_history(case)
+    if case["gen"] == "fft_long":
+        return run_long(case)
     rng = rng_for(case)
     shape = tuple(case["shape"])
     axes = case["axes"]
